@@ -12,6 +12,7 @@ of a batch is therefore state written into the settings objects within a chunk.
     file handled before it with the same settings object.
 """
 import copy
+import sys
 
 import numpy as np
 import z3
@@ -56,6 +57,9 @@ def instances(tier):
     # a settings file that carries an explicit fft_settings dictionary (as written by settings.save() after a process() call)
     for method in ("geometric_mean", "azimuthal"):
         out.append({"name": f"chunk_{method}_explicit_fft", "func": "run_chunk", "kwargs": {"method": method, "order": "long_then_short", "explicit_fft": True}})
+        # files with different time steps and a Butterworth filter requested; the reference for the second file is computed
+        # by a freshly loaded copy of the library (pristine module-level state), as a worker that never saw the first file
+        out.append({"name": f"chunk_{method}_two_time_steps_filtered", "func": "run_chunk", "kwargs": {"method": method, "order": "long_then_short", "dts": [0.5, 0.25], "filtered": True}})
     return out
 
 
@@ -131,12 +135,13 @@ def run_dataflow(rep, tier):
         rep.sample({"worker_passes_chunk_objects": {"preprocessing": shared[0], "processing": shared[1]}})
 
 
-def make_settings(S, method, explicit_fft=False):
+def make_settings(S, method, explicit_fft=False, filtered=False):
     fcs, bws = C01.CFG[4]
     kw = PP.settings_kwargs("linear_triangular", bws["linear_triangular"], fcs, width=0.3)
     if explicit_fft:
         kw["fft_settings"] = {"n": 4}
-    pre = S.HvsrPreProcessingSettings(orient_to_degrees_from_north=None, filter_corner_frequencies_in_hz=[None, None], window_length_in_seconds=None, detrend=None)
+    pre = S.HvsrPreProcessingSettings(orient_to_degrees_from_north=None, filter_corner_frequencies_in_hz=[0.1, 0.4] if filtered else [None, None], window_length_in_seconds=None,
+                                      detrend=None, ignore_dissimilar_time_step_warning=True)
     if method == "geometric_mean":
         return pre, S.HvsrTraditionalProcessingSettings(method_to_combine_horizontals=method, **kw)
     if method == "single_azimuth":
@@ -151,30 +156,47 @@ def cells(res):
     return [x for h in (res.hvsrs if hasattr(res, "hvsrs") else [res]) for x in np.atleast_1d(np.asarray(h.amplitude, dtype=object)).flat]
 
 
-def run_chunk(rep, tier, method, order, explicit_fft=False):
+_FRESH = None
+
+
+def fresh_library():
+    """a second, freshly imported copy of the library modules: module-level state (caches, defaults) as in a new process"""
+    global _FRESH
+    _FRESH = loader.load(["cli", "processing", "preprocessing", "seismic_recording_3c", "settings", "object_io"], find_peaks=PP.no_peaks)
+    loader.lower_fft_floor(_FRESH, 4)
+    return _FRESH
+
+
+def run_chunk(rep, tier, method, order, explicit_fft=False, dts=None, filtered=False):
     Ld = L()
     S, PR, P = Ld["settings"], Ld["preprocessing"], Ld["processing"]
     lens = (5, 3) if order == "long_then_short" else (3, 5)
+    dta, dtb = dts if dts else (DT, DT)
 
     def run(ctx):
         sa, sb = PP.samples("fa", lens[0], ctx), PP.samples("fb", lens[1], ctx)
         passes = worker_passes(Ld)
 
-        def worker(samples, n, pre, pro):
+        def worker(samples, n, dt, pre, pro, lib=Ld, passes=passes):
             p_pre, p_pro = passes(pre, pro)           # what the real worker would hand to the library for these chunk objects
-            recs = PR.preprocess([PP.mkrec(Ld, ctx, "r", n, DT, comps=samples)], p_pre)
-            return C01.process(P, recs, p_pro)
-        pre, pro = make_settings(S, method, explicit_fft)           # one pair of objects for the whole chunk
-        worker(sa, lens[0], pre, pro)
-        second_in_chunk = worker(sb, lens[1], pre, pro)
-        pre2, pro2 = make_settings(S, method, explicit_fft)         # freshly loaded settings, file alone
-        alone = worker(sb, lens[1], pre2, pro2)
+            recs = lib["preprocessing"].preprocess([PP.mkrec(lib, ctx, "r", n, dt, comps=samples)], p_pre)
+            return C01.process(lib["processing"], recs, p_pro)
+        pre, pro = make_settings(S, method, explicit_fft, filtered)           # one pair of objects for the whole chunk
+        worker(sa, lens[0], dta, pre, pro)
+        second_in_chunk = worker(sb, lens[1], dtb, pre, pro)
+        if filtered:
+            F = fresh_library()
+            pre2, pro2 = make_settings(F["settings"], method, explicit_fft, filtered)
+            alone = worker(sb, lens[1], dtb, pre2, pro2, lib=F, passes=worker_passes(F))
+        else:
+            pre2, pro2 = make_settings(S, method, explicit_fft, filtered)         # freshly loaded settings, file alone
+            alone = worker(sb, lens[1], dtb, pre2, pro2)
         return sa, sb, cells(second_in_chunk), cells(alone), pro.fft_settings, pro2.fft_settings
 
     for ctx, (sa, sb, a, b, f1, f2) in rep.explore(run, max_paths=200, timeout_ms=4000):
         def W(m):
             val = concretiser(m)
-            return {"kind": "chunk", "method": method, "order": order, "explicit_fft": explicit_fft, "file_a": {c: [val(v) for v in sa[c]] for c in sa}, "file_b": {c: [val(v) for v in sb[c]] for c in sb},
+            return {"kind": "chunk", "method": method, "order": order, "explicit_fft": explicit_fft, "filtered": filtered, "file_a": {c: [val(v) for v in sa[c]] for c in sa}, "file_b": {c: [val(v) for v in sb[c]] for c in sb},
                     "fft_in_chunk": f1, "fft_alone": f2}
         bad = [z3.BoolVal(True)] if len(a) != len(b) else [Sym.lift(x) != Sym.lift(y) for x, y in zip(a, b)]
         rep.prove(ctx, f"{method}: the result for a file does not depend on the file handled before it in the same chunk ({order})", bad, witness=W,
@@ -224,22 +246,39 @@ def replay(spec):
             else:
                 pro = hvsrpy.HvsrDiffuseFieldProcessingSettings(**kw)
             return pre, pro
-        opts = {"no_figure": True, "no_file": False, "distribution_mc": "lognormal", "distribution_fn": "lognormal", "ymax": 10}
-        import io, contextlib
-        with contextlib.redirect_stdout(io.StringIO()):
-            pre, pro = settings()                    # one chunk: the same objects for both files, as Pool.starmap delivers them
-            CLI._process_hvsr(fa, pre, pro, dict(opts))
-            CLI._process_hvsr(fb, pre, pro, dict(opts))
-            in_chunk = np.loadtxt("file_b.csv", delimiter=",", comments="#")
-            os.remove("file_b.csv")
-            pre2, pro2 = settings()
-            CLI._process_hvsr(fb, pre2, pro2, dict(opts))
-            alone = np.loadtxt("file_b.csv", delimiter=",", comments="#")
+        filtered = bool(spec.get("filtered"))
+        script = (
+            "import sys, os, io, contextlib, numpy as np\n"
+            "sys.path.insert(0, %r)\n"
+            "import hvsrpy\nfrom hvsrpy import cli as CLI\n"
+            "m, explicit, filtered, files = %r, %r, %r, sys.argv[1:]\n"
+            "kw = dict(smoothing=dict(operator='konno_and_ohmachi', bandwidth=40, center_frequencies_in_hz=np.geomspace(0.5, 20, 8)))\n"
+            "pre = hvsrpy.HvsrPreProcessingSettings(window_length_in_seconds=300.0, filter_corner_frequencies_in_hz=[0.3, 15.0] if filtered else [None, None])\n"
+            "if explicit: kw['fft_settings'] = {'n': 32768}\n"
+            "pro = {'geometric_mean': lambda: hvsrpy.HvsrTraditionalProcessingSettings(**kw), 'single_azimuth': lambda: hvsrpy.HvsrTraditionalSingleAzimuthProcessingSettings(azimuth_in_degrees=30.0, **kw),"
+            " 'azimuthal': lambda: hvsrpy.HvsrAzimuthalProcessingSettings(azimuths_in_degrees=[0.0, 60.0], **kw)}.get(m, lambda: hvsrpy.HvsrDiffuseFieldProcessingSettings(**kw))()\n"
+            "opts = {'no_figure': True, 'no_file': False, 'distribution_mc': 'lognormal', 'distribution_fn': 'lognormal', 'ymax': 10}\n"
+            "with contextlib.redirect_stdout(io.StringIO()):\n"
+            "    for f in files:\n"
+            "        CLI._process_hvsr(f, pre, pro, dict(opts))      # one chunk: the same objects for every file, as Pool.starmap delivers them\n"
+            "print('FFT', pro.fft_settings)\n"
+        ) % (os.environ.get("HVSRPY_REPO", "/repo"), m, bool(spec.get("explicit_fft")), filtered)
+        import subprocess
+        outs = {}
+        for tag, files in (("chunk", [fa, fb]), ("alone", [fb])):          # each in its own interpreter: a worker that handled file_a first / never saw it
+            wd = os.path.join(d, tag)
+            os.makedirs(wd)
+            r = subprocess.run([sys.executable, "-c", script] + files, cwd=wd, capture_output=True, text=True, timeout=900)
+            if r.returncode != 0:
+                return {"reproduced": False, "detail": f"worker process ({tag}) failed: {r.stderr[-300:]}"}
+            outs[tag] = (np.loadtxt(os.path.join(wd, "file_b.csv"), delimiter=",", comments="#"), r.stdout.strip().splitlines()[-1])
+        in_chunk, alone = outs["chunk"][0], outs["alone"][0]
         same = in_chunk.shape == alone.shape and np.array_equal(in_chunk, alone)
         if same:
-            return {"reproduced": False, "detail": "file_b.csv identical whether or not file_a was handled before it in the chunk"}
+            return {"reproduced": False, "detail": "file_b.csv identical whether or not file_a was handled before it by the same worker"}
         return {"reproduced": True, "key": "output-depends-on-chunk-history",
-                "detail": f"{m}: file_b.csv written by the worker differs when file_a ({'200' if long_first else '100'} Hz) is handled before it with the same settings objects: fft n in chunk {pro.fft_settings} vs alone {pro2.fft_settings}; max |diff| = {np.max(np.abs(in_chunk - alone)) if in_chunk.shape == alone.shape else 'shape'}"}
+                "detail": f"{m}: file_b.csv written by a worker that handled file_a ({'200' if long_first else '100'} Hz) first differs from the one written by a worker that never saw it"
+                          f" ({outs['chunk'][1]} vs {outs['alone'][1]}; filter requested: {filtered}); max |diff| = {np.max(np.abs(in_chunk - alone)) if in_chunk.shape == alone.shape else 'shape'}"}
     finally:
         os.chdir(cwd)
         shutil.rmtree(d, ignore_errors=True)
